@@ -36,12 +36,13 @@ FUNCTIONS = ['RelationLink.get_start_time (lru_cache)', 'MultiRelationLink.get_s
              'temporary_override_get_registry_at', 'clear_lru_cache', 'plot_circuit', 'construct_visual_description', 'to_stim', 'AcquisitionRegistry.get_registry_at']
 BOUNDS = {'quick': "base programs: flat <= 3 steps and nested (one or two sub-circuits, repetition 1..2) over {Wait q0, Wait q1, registry-Wait q0, Rx180 q0, Measure q1}; histories of <= 3 "
                    "events drawn from mutations {add op, add sub-circuit, apply_modifiers, flatten, set registry value, enter/leave global-duration override} and observations "
-                   "{operations, times, duration, acquisition indices, visual description, plot_circuit, to_stim, nest a copy}; seeded sample of 700 (program, history) pairs",
+                   "{operations, times, duration, acquisition indices, visual description, plot_circuit, to_stim, nest a copy, list-and-keep the objects}; seeded sample of 700 "
+                   "(program, history) pairs + ~150 hand-picked ones",
           'thorough': "histories of <= 5 events, programs <= 6 leaves, 8000 sampled pairs"}
 OUTSIDE = ["user code assigning relation_link directly", "DynamicDurationStrategy callables", "matplotlib rendering (plot_circuit runs with the renderer stubbed)",
            "histories longer than the bound"]
 ASSUMPTIONS = ["H and H' are built from the same symbolic variables in the same process, H first", "hash(Sym) constant / == decided by the solver (cache hit iff durations equal)"]
-REQUIRED_REACH = ['C03.listing', 'C03.times', 'C03.duration', 'C03.acquisition', 'C03.stim', 'C03.nested_copy', 'C03.unrolled', 'C03.retained', 'C03.reflects_change']
+REQUIRED_REACH = ['C03.listing', 'C03.times', 'C03.duration', 'C03.acquisition', 'C03.stim', 'C03.nested_copy', 'C03.unrolled', 'C03.retained', 'C03.held', 'C03.reflects_change']
 EXHAUSTIVE = {'quick': False, 'thorough': False}
 JOB_OPTS = {'quick': dict(max_paths=3000, max_seconds=400), 'thorough': dict(max_paths=20000, max_seconds=1500)}
 
@@ -69,6 +70,13 @@ def jobs(tier, seed):
         for events in (['enter', 'times', 'leave'], ['times', 'enter', 'leave'], ['apply', 'enter', 'times', 'leave'], ['apply', 'plot'], ['plot'], ['enter', 'plot', 'leave']):
             for final in ('retained', 'times', 'unrolled'):
                 out.append({'prog': prog, 'events': events, 'final': final, 'name': 'override entered and left around an observation'})
+    par_block = {'steps': [{'k': ['S', {'steps': [{'k': ['W', 0, 'ALL'], 'rel': None}, {'k': ['G', 'Rx180', [1]], 'rel': None}], 'rep': 2}], 'rel': None}]}
+    par_block3 = {'steps': [{'k': ['W', 1, 'ALL'], 'rel': None},
+                            {'k': ['S', {'steps': [{'k': ['R', 0, 'ALL'], 'rel': None}, {'k': ['G', 'Rx180', [1]], 'rel': None}, {'k': ['M', 1, 'a'], 'rel': None}], 'rep': 3}], 'rel': None}]}
+    for prog in (rep_block, par_block, par_block3, chain):
+        for events in (['apply', 'hold', 'enter'], ['apply', 'enter', 'hold', 'leave'], ['apply', 'hold', 'setreg'], ['hold', 'enter'], ['enter', 'hold', 'leave'],
+                       ['apply', 'hold', 'enter', 'leave'], ['flatten', 'hold', 'enter'], ['hold', 'setreg', 'enter']):
+            out.append({'prog': prog, 'events': events, 'final': 'held', 'name': 'times re-read through kept operation objects after a duration setting changed'})
     meas_block = {'steps': [{'k': ['S', {'steps': [{'k': ['M', 1, 'a'], 'rel': None}, {'k': ['W', 0, 'ALL'], 'rel': None}], 'rep': 2}], 'rel': None}, {'k': ['M', 1, 'a'], 'rel': None}]}
     for events in (['acq', 'apply'], ['ops', 'acq', 'apply'], ['stim', 'apply'], ['acq', 'add', 'apply']):
         for final in ('times', 'stim'):
@@ -108,7 +116,13 @@ def jobs(tier, seed):
             events.append(rng.choice(OBS) if rng.random() < 0.55 else rng.choice(MUT))
         if not any(e in OBS for e in events):
             events.insert(rng.randrange(len(events) + 1), rng.choice(OBS))
-        out.append({'prog': prog, 'events': events, 'final': rng.choice(['times', 'times', 'nest', 'unrolled', 'stim', 'retained', 'duration_only'])})
+        final = rng.choice(['times', 'times', 'nest', 'unrolled', 'stim', 'retained', 'duration_only', 'held', 'held'])
+        if final == 'held':
+            # keep the objects after the last structural mutation; afterwards only settings change
+            last = max([i for i, e in enumerate(events) if e in ('add', 'addsub', 'grow', 'apply', 'flatten')], default=-1)
+            events.insert(rng.randint(last + 1, len(events)), 'hold')
+            events.append(rng.choice(['enter', 'setreg', 'leave', 'enter']))
+        out.append({'prog': prog, 'events': events, 'final': final})
     return out
 
 
@@ -165,8 +179,15 @@ def play(ctx, params, with_observations: bool, g_out, g_in, stack):
     retained = circuit.operations if params.get('final') == 'retained' else []   # objects the user holds from the start (part of both histories)
     open_overrides = []
     extra = 0
+    held = None
     for ev in params['events']:
         c = holder['circuit']
+        if ev == 'hold':
+            # the user lists the circuit, reads the times and keeps the operation objects (an observation: absent from H')
+            if with_observations:
+                held = c.operations
+                [(o.start_time, o.end_time) for o in held]
+            continue
         if ev in OBS:
             if with_observations:
                 observe_kind(ev, c)
@@ -201,7 +222,7 @@ def play(ctx, params, with_observations: bool, g_out, g_in, stack):
             if open_overrides:
                 open_overrides.pop().__exit__(None, None, None)
     c = holder['circuit']
-    final = {'built': built, 'circuit': c, 'inside_override': bool(open_overrides)}
+    final = {'built': built, 'circuit': c, 'inside_override': bool(open_overrides), 'held_objects': held}
     try:
         return _final(ctx, params, c, final, retained)
     finally:
@@ -218,6 +239,21 @@ def _final(ctx, params, c, final, retained):
     elif which == 'retained':
         # no new listing: times are read through the operation objects obtained right after construction
         final['retained'] = [(o.start_time, o.end_time) for o in retained]
+    elif which == 'held':
+        # H: no new listing, times are read through the objects kept at the last 'hold'; H': a plain listing of the final circuit.
+        # The two are aligned by the objects' structural position (the listing order itself may depend on the settings in force).
+        objs = final['held_objects'] if final['held_objects'] is not None else c.operations
+        t = [(o, (o.start_time, o.end_time)) for o in objs]
+        pos = []
+
+        def walk(comp):
+            for k in cm.composite_children(comp):
+                if isinstance(k, CircuitCompositeOperation):
+                    walk(k)
+                else:
+                    pos.append(k)
+        walk(c.circuit_structure)
+        final['held'] = [next((tt for o, tt in t if o is k), (None, None)) for k in pos]
     elif which == 'nest':
         final['nested'] = observe_kind('nest', c)
     elif which == 'unrolled':
@@ -282,6 +318,9 @@ def run(ctx, params):
         ctx.check('C03.duration_only', pairs_equal(fa['duration_only'], fb['duration_only']), dict(info, with_observations=fa['duration_only'], without=fb['duration_only']))
     if 'retained' in fa:
         ctx.check('C03.retained', pairs_equal(fa['retained'], fb['retained']), dict(info, with_observations=fa['retained'], without=fb['retained']))
+    if 'held' in fa:
+        ctx.observe('held.with', fa['held'])
+        ctx.check('C03.held', pairs_equal(fa['held'], fb['held']), dict(info, with_observations=fa['held'], without=fb['held']))
     if 'unrolled' in fa:
         ctx.check('C03.unrolled', pairs_equal(fa['unrolled'], fb['unrolled']), dict(info, with_observations=fa['unrolled'], without=fb['unrolled']))
     if 'times' not in fa:
